@@ -92,6 +92,35 @@ theorem ref_junction (nsmap : List (Int × Int)) (al : List (Str × NodeId)) (s 
   · simp [parseRef, hs, hty, lookup, k1, k2]
   · simp [parseRef, ht, hty, lookup, k1, k2]
 
+/-- **node junction (identity part)**: a node element as the writer emits it — NodeId text with the
+    document-local index, BrowseName `k:name`, a type attribute written as a NodeId text, display
+    name and description as element texts — is read back as a row with exactly that NodeId (in the
+    global table), that browse name and browse-name namespace, those texts, and that DataType;
+    an absent optional attribute stays absent -/
+theorem node_junction (nsmap : List (Int × Int)) (al : List (Str × NodeId)) (cls : Str)
+    (nidText bk name dtText disp desc : Str) (k : Int) (nid dt : NodeId)
+    (hn : parseNodeId nidText nsmap (some al) = .ok nid) (hd : parseNodeId dtText nsmap (some al) = .ok dt)
+    (hb : browseSplit bk = .ok (k, name)) :
+    parseNode nsmap al ⟨cls, [(kNodeId, nidText), (kBrowseName, bk), (kDataType, dtText)], [some disp], [some desc], [], none⟩ =
+      .ok { cls := cls, nodeId := nid, browseName := name, browseNs := lookup k nsmap, display := rstrip disp,
+            description := rstrip desc, dataType := some dt, parent := none, methodDecl := none, attrs := [], value := none } := by
+  have e1 : kBrowseName ≠ kNodeId := by decide
+  have e2 : kDataType ≠ kNodeId := by decide
+  have e3 : kDataType ≠ kBrowseName := by decide
+  have e4 : kNodeId ≠ kDataType := by decide
+  have e5 : kBrowseName ≠ kDataType := by decide
+  have e6 : kNodeId ≠ kParentNodeId := by decide
+  have e7 : kBrowseName ≠ kParentNodeId := by decide
+  have e8 : kDataType ≠ kParentNodeId := by decide
+  have e9 : kNodeId ≠ kMethodDeclarationId := by decide
+  have e10 : kBrowseName ≠ kMethodDeclarationId := by decide
+  have e11 : kDataType ≠ kMethodDeclarationId := by decide
+  have e12 : kNodeId ≠ kBrowseName := by decide
+  have hf : ([(kNodeId, nidText), (kBrowseName, bk), (kDataType, dtText)].filter fun p => !idAttrs.contains p.1) = [] := by
+    simp [idAttrs]
+  unfold parseNode
+  simp only [lookup, e1, e2, e3, e4, e5, e6, e7, e8, e9, e10, e11, e12, if_true, if_false, hn, optParse, hd, hb, hf, mapE, optDecode, firstText]
+
 /-! ### non-vacuity -/
 example : typedAttr "ValueRank".toList (attrText (.int (-2))) = .ok (.int (-2)) := (int_attr_junction (-2)).1 (by decide) (by decide)
 
